@@ -330,6 +330,16 @@ class Interp:
         return d[what] - 1
 
     def truth(self, v, lineno=None):
+        if isinstance(v, Forall):
+            # branching on np.all(...) over a symbolic array: either the quantified fact holds (assumed as a hypothesis), or there is a
+            # witness index where it fails (fresh Skolem constant)
+            if self.ctx.branch(self.ctx.fresh_bool("forall_holds"), lineno):
+                self.ctx.assume(v)
+                return True
+            ws = [self.ctx.fresh_int("forall_cex") for _ in range(v.nvars)]
+            self.ctx.index_terms.extend(ws)
+            self.ctx.assume(Not(v.instantiate(*ws)))
+            return False
         return self.ctx.branch(self.to_bool(v, lineno), lineno)
 
     def to_bool(self, v, lineno=None):
@@ -751,7 +761,10 @@ class Interp:
         return Closure(e, env, self)
 
     def e_IfExp(self, e, env):
-        t = self.to_bool(self.eval(e.test, env), e.lineno)
+        tv = self.eval(e.test, env)
+        if isinstance(tv, Forall):
+            return self.eval(e.body, env) if self.truth(tv, e.lineno) else self.eval(e.orelse, env)
+        t = self.to_bool(tv, e.lineno)
         ct = conc(t) if is_sym(t) else t
         if ct is True:
             return self.eval(e.body, env)
